@@ -57,6 +57,8 @@ static bytes crc32_bitorder(const bytes &m)
 }
 
 static bytes sub(const bytes &m, size_t a, size_t b) { return bytes(m.begin() + a, m.begin() + b); }
+// every split point for short messages, ~64 evenly spread ones (plus both ends) for long ones
+static size_t split_step(size_t n) { return n <= 512 ? 1 : n / 64; }
 
 // ---------------------------------------------------------------- run
 static uint8_t strm(uint8_t seed, const uint8_t *p, size_t n)
@@ -140,7 +142,7 @@ static void run_op(const std::vector<std::string> &w, const std::string &, out &
         uint32_t ref = ref_msb(16, 0x1021, seed, m);
         if (ref != r)
             o.fail("crc16 != CCITT reference " + hexn(ref, 4));
-        for (size_t k = 0; k <= m.size(); k++)
+        for (size_t k = 0; k <= m.size(); k += (k + split_step(m.size()) > m.size() && k < m.size()) ? m.size() - k : split_step(m.size()))
             if (igris_crc16(b.p + k, (uint16_t)(m.size() - k), igris_crc16(b.p, (uint16_t)k, (uint16_t)seed)) != r)
                 o.fail("crc16 chaining at split " + std::to_string(k));
     }
@@ -153,7 +155,7 @@ static void run_op(const std::vector<std::string> &w, const std::string &, out &
         if (ref != r)
             o.fail("crc32 != reference " + hexn(ref, 8));
         // chaining at word boundaries (other split points: known finding, see crc32chain)
-        for (size_t k = 0; k <= m.size(); k += 4)
+        for (size_t k = 0; k <= m.size(); k += 4 * split_step(m.size()))
             if (igris_crc32(b.p + k, (uint32_t)(m.size() - k), igris_crc32(b.p, (uint32_t)k, seed)) != r)
                 o.fail("crc32 chaining at split " + std::to_string(k));
     }
@@ -235,6 +237,13 @@ static void gen(rng &r, const std::string &tier)
                 if (th || a == al8 || len < 24)
                     printf("crc32 %08x %s %u\n", (unsigned)r.next(), rnd_hex(r, len).c_str(), a);
         }
+    // (3b) long messages (length fields wider than a byte: crc16 takes uint16_t, crc32 uint32_t)
+    for (int len : {256, 257, 511, 1000, 4099, 65535, 65536, 70001})
+    {
+        std::string h = rnd_hex(r, len);
+        if (len <= 65535) printf("crc16 %04x %s %u\n", (unsigned)r.below(65536), h.c_str(), (unsigned)r.below(8));
+        printf("crc32 %08x %s %u\n", (unsigned)r.next(), h.c_str(), (unsigned)r.below(8));
+    }
     // (4) known finding C17-crc32-split: chaining at split points not divisible by 4
     for (int i = 0; i < 40; i++)
     {
